@@ -3,10 +3,11 @@ CONSTANT NReq = 3
 CONSTANT MaxBatches = {1, 2, 3}
 CONSTANT Modes = {"none", "map", "lru1", "lru2", "mapoff"}
 CONSTANT Prefeds = {{}, {1}}
-CONSTANT Holes = {}
+CONSTANT HoleSets = {{}}
 CONSTANT Errs = TRUE
 CONSTANT Cancels = TRUE
-SPECIFICATION Spec
+INIT Init
+NEXT Next
 INVARIANT ResultsExact
 INVARIANT EveryKeyLoaded
 INVARIANT NoDuplicateKeyInBatch
